@@ -102,6 +102,7 @@ func replayErrChain(args []string) (any, error) {
 		}
 		sum.Evaluations++
 		sum.Distinct++
+		observeEach := sum.Evaluations%2 == 0
 		var orig, cp *errchain.PlError
 		sig := "errchain:"
 		for _, o := range v.Ops {
@@ -124,6 +125,15 @@ func replayErrChain(args []string) (any, error) {
 				cp = orig.Copy()
 			case "appendCopy":
 				cp.ChainAppend(o.File, lp)
+			}
+			// observers are used after every operation (an error is logged, rendered, marshalled on its way up): looking at an
+			// error must not change what it later renders to
+			if observeEach {
+				_ = orig.Error()
+				_, _ = json.Marshal(orig)
+				if cp != nil {
+					_ = cp.Error()
+				}
 			}
 		}
 		bad := map[string]any{}
@@ -162,8 +172,15 @@ func replayErrChain(args []string) (any, error) {
 				bad["json_roundtrip2"] = map[string]any{"doc": string(gb), "got": back2}
 			}
 		}
+		// decoding a document into a value that was already rendered replaces it completely
+		if wb2, err := json.Marshal(v.Copy); err == nil && v.HasCopy {
+			_ = orig.Error()
+			if err := json.Unmarshal(wb2, orig); err != nil || !sameChain(orig, v.Copy) || orig.Error() != v.RenderCopy {
+				bad["decode_into_rendered"] = map[string]any{"doc": string(wb2), "got": orig, "render": orig.Error(), "want_render": v.RenderCopy}
+			}
+		}
 		if len(bad) > 0 {
-			sum.miss(sig, map[string]any{"ops": v.Ops, "bad": bad})
+			sum.miss(sig, map[string]any{"ops": v.Ops, "bad": bad, "observed_after_each_op": observeEach})
 		}
 		sum.sample(map[string]any{"ops": v.Ops, "render": v.RenderOrig})
 		return nil
